@@ -49,7 +49,7 @@ func VerifResolve(infos []VerifProdInfo, cells [][]VerifAction) (out [][]VerifAc
 			rules[in.Rule] = r
 		}
 		p := g.AddProd(r)
-		p.Precedence = in.Prec
+		verifSetInt(&p.Precedence, in.Prec)
 		if in.Right {
 			p.Associativity = Right
 		}
@@ -185,3 +185,12 @@ func VerifCells(t *ParserTable) []VerifCell {
 	}
 	return res
 }
+
+// verifSetInt stores v whatever integer type the field has (keeps the harness compiling across
+// harmless type refactors of the field).
+func verifSetInt[T ~int | ~int8 | ~int16 | ~int32 | ~int64 | ~uint | ~uint8 | ~uint16 | ~uint32 | ~uint64](dst *T, v int) {
+	*dst = T(v)
+}
+
+// VerifSetPrec is verifSetInt for a production's precedence, for use outside the package.
+func VerifSetPrec(p *Prod, v int) { verifSetInt(&p.Precedence, v) }
